@@ -222,12 +222,17 @@ TEXT = {
     "C06": {
         "level_text": "Proved (string level): the key chosen by min_rc_flip is the lexicographic minimum of a k-mer and its reverse complement, is the same "
                       "for both, their flip flags are opposite unless the k-mer is its own reverse complement, and stranded mode never "
-                      "canonicalises. The invariance of table and graphs under reverse-complementing any subset of reads, and stranded "
-                      "separation (table = forward k-mers with their counts, stranded graphs = components of forward links, the three pipelines "
-                      "agree), are evaluated on the crate's outputs for random masks, even and odd K.",
+                      "canonicalises. C06_filter_rc_invariant: for every read set (empty boundary extensions) and every subset of reads replaced by "
+                      "their reverse complements, the unstranded table has the same keys and payloads and the same extension set at every k-mer "
+                      "that is not its own reverse complement (a read and its reverse complement yield the same canonical observations in reverse "
+                      "order; the table is invariant under permuting observations). C06_graph_rc_invariant: such tables induce the same good-link "
+                      "relation (links never read a palindrome's extension byte), hence the same partition node by node. "
+                      "C06_stranded_separation: stranded keys are exactly the k-mers as spelled and an entry records b on side d iff some read "
+                      "spells it there. Payload/adjacency equality of finished graphs and the sharded / re-compressed pipelines are evaluated on "
+                      "the crate's outputs for random masks, even and odd K.",
         "design_ref": "DESIGN.md section 6, C06",
         "level_note": COMMON_NOTE + "Partial: table/graph-level invariance by execution.",
-        "technique": "Lean 4 proof (order lemmas on canonical forms) + execution of all pipeline variants on reverse-complemented read sets with executable predicates",
+        "technique": "Lean 4 proof (order algebra of canonical forms; permutation invariance of the filter; congruence of the link relation) + differential correspondence with executable predicate over masked read sets",
     },
     "C09": {
         "level_text": "Proved for the model of CompressFromGraph, for every graph and censor set: each walk only steps onto available nodes, removes them and "
